@@ -59,9 +59,16 @@ def _data(ch: core.Chooser, dtype: str, size: int, allow_neg: bool = True) -> li
     kind = numpy.dtype(dtype).kind
     if kind == "b":
         return [ch.choice([True, False, True]) for _ in range(size)]
+    if kind == "c" and allow_neg:
+        # purely imaginary and mixed values: a cast to bool is a non-zero test of the whole number, to float it drops the imaginary part
+        return [ch.choice([-2, -1, 0, 1, 1, 2, [0, 1], [0, -2], [1, 1], [-1, 2]]) for _ in range(size)]
     if kind == "u" or not allow_neg:
         return [ch.choice([0, 1, 1, 2, 3]) for _ in range(size)]
     return [ch.choice([-3, -2, -1, 0, 1, 1, 2, 3]) for _ in range(size)]
+
+
+def _num(v: Any) -> Any:
+    return complex(*v) if isinstance(v, list) else v
 
 
 def _poly(ch: core.Chooser, dtype: str, names: Optional[List[str]] = None, shape: Optional[tuple] = None, max_terms: int = 3) -> dict:
@@ -85,19 +92,28 @@ def generate(rs: int, tier: str, index: int) -> dict:
     d1 = DTYPES[index % len(DTYPES)]
     d2 = DTYPES[(index // len(DTYPES)) % len(DTYPES)]
     kind = ch.weighted([(4, "ctor"), (5, "arith"), (3, "shape"), (2, "vanish"), (1, "create")])
+    CASTS = ["astype", "polynomial_dtype", "aspolynomial_dtype", "from_attributes_dtype", "aspolynomial_poly_dtype"]
+    cast_cell = index < len(DTYPES) ** 2 * len(CASTS)  # the complete (source dtype, target dtype, cast route) matrix comes first
+    if cast_cell:
+        kind = "ctor"
     step: Dict[str, Any] = {"id": 0, "k": kind, "d1": d1, "d2": d2}
     if kind == "ctor":
         how = ch.choice(["polynomial_dtype", "aspolynomial_dtype", "from_attributes_dtype", "from_attributes_mixed", "dict", "variable", "symbols", "astype", "from_data", "aspolynomial_poly_dtype", "polynomial_list"])
+        if cast_cell:
+            how = CASTS[(index // len(DTYPES) ** 2) % len(CASTS)]
         step["how"] = how
         shape = ch.choice([(), (3,), (2, 2)])
         size = int(numpy.prod(shape, dtype=int))
         step["x"] = {"shape": list(shape), "dtype": d1, "flat": _data(ch.sub("x"), d1, size, allow_neg=numpy.dtype(d2).kind not in "ub")}
         step["p"] = _poly(ch.sub("p"), d1)
         if numpy.dtype(d2).kind in "ub":  # keep casts value-preserving and order independent
-            step["p"]["coefficients"] = [[abs(v) if not isinstance(v, bool) else v for v in col] for col in step["p"]["coefficients"]]
+            step["p"]["coefficients"] = [[v if isinstance(v, bool) else ([abs(v[0]), abs(v[1])] if isinstance(v, list) else abs(v)) for v in col] for col in step["p"]["coefficients"]]
         step["mixed"] = [ch.choice(DTYPES) for _ in range(3)]
     elif kind == "arith":
-        step["op"] = ch.choice(["add", "sub", "mul", "mul", "pow", "mul_scalar", "radd_array"])
+        step["op"] = ch.choice(["add", "sub", "mul", "mul", "pow", "mul_scalar", "radd_array", "add_npscalar", "add_npscalar", "add_pyscalar"])
+        step["value"] = ch.choice([0, 1, 2, 100])
+        step["primer_dtype"] = ch.choice(DTYPES)
+        step["primer"] = ch.chance(0.6)
         a = _poly(ch.sub("a"), d1)
         rel = ch.below(3)
         bnames = a["names"] if rel == 0 else model.gen_names(ch.sub("bn"), 1, 2, pool=["q0", "q1", "q2"])
@@ -140,11 +156,11 @@ def generate(rs: int, tier: str, index: int) -> dict:
 
 
 def _arr(lit: dict) -> numpy.ndarray:
-    return numpy.array(lit["flat"], dtype=lit["dtype"]).reshape(lit["shape"])
+    return numpy.array([_num(v) for v in lit["flat"]], dtype=lit["dtype"]).reshape(lit["shape"])
 
 
 def _cols(lit: dict) -> List[numpy.ndarray]:
-    return [numpy.array(c, dtype=lit["dtype"]).reshape(lit["shape"]) for c in lit["coefficients"]]
+    return [numpy.array([_num(v) for v in c], dtype=lit["dtype"]).reshape(lit["shape"]) for c in lit["coefficients"]]
 
 
 def _model(lit: dict) -> Dict[frozenset, numpy.ndarray]:
@@ -308,8 +324,34 @@ class Runner:
                 rt = numpy.multiply(numpy.zeros((), d1), sc).dtype
                 # a Python scalar is not a dtype: only the values are asserted
                 return (lambda: self.build(a) * sc), Expect(None, tuple(a["shape"]), _strip({key: numpy.multiply(v, sc) for key, v in ma.items()})), op, {"d1": step["d1"]}
+            if op in ("add_npscalar", "add_pyscalar"):
+                v = step["value"]
+                if op == "add_npscalar":
+                    scalar: Any = d2.type(v)
+                    primer_scalar: Any = numpy.dtype(step["primer_dtype"]).type(v)
+                else:
+                    scalar = {"b": bool(v), "i": int(v), "u": int(v), "f": float(v), "c": complex(v)}[d2.kind]
+                    primer_scalar = {"b": float(v), "i": float(v), "u": complex(v), "f": int(v), "c": int(v)}[d2.kind]
+                sdt = numpy.asarray(scalar).dtype
+                try:
+                    rt = numpy.add(numpy.zeros((), d1), numpy.zeros((), sdt)).dtype
+                    exp = Expect(rt, tuple(a["shape"]), _strip(_m_addsub(ma, {frozenset(): numpy.asarray(scalar)}, numpy.add, d1, sdt, tuple(a["shape"]))))
+                except TypeError:
+                    exp = Expect(raises=True)
+
+                def thunk_scalar():
+                    if step.get("primer"):
+                        # history: an equal number of another type went through the same conversion earlier
+                        try:
+                            numpoly.aspolynomial(primer_scalar)
+                            self.build(a) + primer_scalar
+                        except Exception:  # noqa: BLE001
+                            pass
+                    return self.build(a) + scalar
+
+                return thunk_scalar, exp, op, where
             if op == "radd_array":
-                arr = numpy.array(_data(core.Chooser(self.rs, "radd"), step["d2"], int(numpy.prod(a["shape"], dtype=int))), dtype=d2).reshape(a["shape"])
+                arr = numpy.array([_num(v) for v in _data(core.Chooser(self.rs, "radd"), step["d2"], int(numpy.prod(a["shape"], dtype=int)))], dtype=d2).reshape(a["shape"])
                 try:
                     rt = numpy.add(numpy.zeros((), d2), numpy.zeros((), d1)).dtype
                     exp = Expect(rt, tuple(a["shape"]), _strip(_m_addsub({frozenset(): arr}, ma, numpy.add, d2, d1, tuple(a["shape"]))))
